@@ -39,6 +39,41 @@ class HarnessError(Exception):
     """the harness itself is inadequate or broken: exit 2, never a VIOLATION line"""
 
 
+class ShortStop(BaseException):
+    """raised by the short wall timer that stops an endless (legitimate) generated program"""
+
+
+_short_guard = {'on': False}
+
+
+def _short_handler(signum, frame):
+    if _short_guard['on']:
+        _short_guard['on'] = False
+        raise ShortStop()
+
+
+class short_timer:
+    """with short_timer(0.3): <run an engine>  - raises ShortStop inside the block after the wall time; never
+    outside it (the handler only raises while the guard is on). restores the case watchdog afterwards."""
+
+    def __init__(self, seconds):
+        self.seconds = seconds
+
+    def __enter__(self):
+        self.old = signal.signal(signal.SIGALRM, _short_handler)
+        self.remaining = signal.setitimer(signal.ITIMER_REAL, self.seconds)
+        _short_guard['on'] = True
+        return self
+
+    def __exit__(self, et, ev, tb):
+        _short_guard['on'] = False
+        signal.setitimer(signal.ITIMER_REAL, 0)
+        signal.signal(signal.SIGALRM, self.old)
+        if self.remaining and self.remaining[0] > 0:
+            signal.setitimer(signal.ITIMER_REAL, max(0.5, self.remaining[0]))
+        return False
+
+
 def case_rng(seed, check_id, index):
     h = hashlib.sha256(f'{seed}/{check_id}/{index}'.encode()).digest()
     return random.Random(int.from_bytes(h[:16], 'big'))
